@@ -9,8 +9,17 @@ package main
 
 import (
 	"context"
+	"crypto"
+	crand "crypto/rand"
+	"crypto/rsa"
+	"crypto/sha256"
 	"crypto/tls"
+	"encoding/base64"
+	"encoding/json"
 	"fmt"
+	"math/big"
+	"net/http"
+	"sync/atomic"
 	"io"
 	"math/rand"
 	"net"
@@ -899,6 +908,263 @@ func scenBlockedDials(addr string, I, T int64, dialTimeoutS int64, nReq int, win
 	return res
 }
 
+// a local HTTP endpoint on addr:0
+func serveHTTP(addr string, h http.Handler) (string, func(), error) {
+	ln, err := net.Listen("tcp", net.JoinHostPort(addr, "0"))
+	if err != nil {
+		return "", nil, err
+	}
+	srv := &http.Server{Handler: h}
+	go func() { _ = srv.Serve(ln) }()
+	return ln.Addr().String(), func() { _ = srv.Close() }, nil
+}
+
+// ---- scenario: the session dies (peer silent, heartbeat watchdog) while a registration is in flight in a slow
+//      NewProxy plugin: afterwards nothing of it may be left, and a real frpc must be able to register the same
+//      name and port ----
+func scenInflightTeardown(addr string, T int64, sendAt, pluginDelay int64) scenResult {
+	res := scenResult{name: "inflight_teardown", info: map[string]any{}}
+	var calls atomic.Int64
+	var enteredAt atomic.Int64
+	pluginAddr, stopPlugin, err := serveHTTP(addr, http.HandlerFunc(func(w http.ResponseWriter, r *http.Request) {
+		if calls.Add(1) == 1 {
+			enteredAt.Store(time.Now().UnixNano())
+			time.Sleep(time.Duration(pluginDelay) * time.Millisecond)
+		}
+		w.Header().Set("Content-Type", "application/json")
+		_, _ = w.Write([]byte(`{"reject":false,"unchange":true}`))
+	}))
+	if err != nil {
+		res.problems = append(res.problems, err.Error())
+		return res
+	}
+	defer stopPlugin()
+	s, err := hx.StartServer(addr, func(c *v1.ServerConfig) {
+		c.Transport.HeartbeatTimeout = T
+		c.HTTPPlugins = []v1.HTTPPluginOptions{{Name: "slow-newproxy", Addr: pluginAddr, Path: "/handler", Ops: []string{"NewProxy"}}}
+	})
+	if err != nil {
+		res.problems = append(res.problems, "server start: "+err.Error())
+		return res
+	}
+	defer s.Close()
+	p, _, err := s.Login(hx.LoginOpts{})
+	if err != nil || p == nil {
+		res.problems = append(res.problems, fmt.Sprintf("login failed: %v", err))
+		return res
+	}
+	t0 := time.Now()
+	defer p.Close()
+	rport := hx.FreePort(addr)
+	closedCh := make(chan time.Time, 1)
+	go drainPeer(p, &pongLog{}, closedCh)
+	time.Sleep(time.Until(t0.Add(time.Duration(sendAt) * time.Millisecond)))
+	if err := p.Send(&msg.NewProxy{ProxyName: "inflight", ProxyType: "tcp", RemotePort: rport}); err != nil {
+		res.problems = append(res.problems, "send NewProxy: "+err.Error())
+		return res
+	}
+	sentAt := ms(t0, time.Now())
+	// silent from here on: the watchdog closes the connection while the plugin still holds the registration
+	var closedAt int64 = -1
+	select {
+	case ct := <-closedCh:
+		closedAt = ms(t0, ct)
+	case <-time.After(time.Duration(T*1000+1000+4*slackMs) * time.Millisecond):
+	}
+	if ok, why := watchOK(T, 0, closedAt, ms(t0, time.Now())); !ok {
+		res.problems = append(res.problems, why)
+	}
+	if enteredAt.Load() == 0 {
+		res.problems = append(res.problems, "the NewProxy plugin was never called")
+		return res
+	}
+	finish := time.Unix(0, enteredAt.Load()).Add(time.Duration(pluginDelay) * time.Millisecond)
+	inflight := closedAt >= 0 && t0.Add(time.Duration(closedAt)*time.Millisecond).Before(finish)
+	if !inflight {
+		res.problems = append(res.problems, "the session did not end while the registration was in flight (scenario not exercised)")
+		return res
+	}
+	time.Sleep(time.Until(finish.Add(300 * time.Millisecond)))
+	released := false
+	for i := 0; i < 100 && !released; i++ {
+		released = hx.TCPBindable(addr, rport)
+		if !released {
+			time.Sleep(10 * time.Millisecond)
+		}
+	}
+	// the client comes back: a real frpc with the same proxy name and remote port
+	echo, err := hx.StartEcho(addr, "")
+	if err != nil {
+		res.problems = append(res.problems, err.Error())
+		return res
+	}
+	defer echo.Close()
+	pc := tcpProxy("inflight", addr, echo.Port(), rport)
+	cl, err := s.StartClient([]v1.ProxyConfigurer{pc}, nil, func(cc *v1.ClientCommonConfig) { cc.LoginFailExit = nil })
+	if err != nil {
+		res.problems = append(res.problems, err.Error())
+		return res
+	}
+	defer cl.Close()
+	rereg := cl.WaitProxyRunning("inflight", 3*time.Second) && echoThrough(addr, rport)
+	res.ok = len(res.problems) == 0 && released && rereg
+	if !released {
+		res.problems = append(res.problems, fmt.Sprintf("remote port %d is still bound after the session was torn down (NewProxy sent at %d ms, plugin held it %d ms, connection closed by the watchdog at %d ms): the registration outlived its session", rport, sentAt, pluginDelay, closedAt))
+	}
+	if !rereg {
+		st, _ := cl.Svc.StatusExporter().GetProxyStatus("inflight")
+		why := ""
+		if st != nil {
+			why = st.Err
+		}
+		res.problems = append(res.problems, "the returning frpc could not re-register the proxy within 3 s: "+why)
+	}
+	res.info["closed_at_ms"], res.info["newproxy_sent_ms"], res.info["released"], res.info["reregistered"] = closedAt, sentAt, released, rereg
+	res.cases = append(res.cases, fmt.Sprintf("CTeardown [SR %d 1 %d] %s %s %s", sentAt, pluginDelay, coqZ(closedAt), coqBool(released), coqBool(rereg)))
+	return res
+}
+
+// ---- a minimal OIDC provider: discovery, JWKS, client-credentials token endpoint issuing RS256 JWTs whose
+//      subject is the client id ----
+func startIssuer(addr string) (string, func(), error) {
+	key, err := rsa.GenerateKey(crand.Reader, 2048)
+	if err != nil {
+		return "", nil, err
+	}
+	b64 := func(b []byte) string { return base64.RawURLEncoding.EncodeToString(b) }
+	mux := http.NewServeMux()
+	hostport, stop, err := serveHTTP(addr, mux)
+	if err != nil {
+		return "", nil, err
+	}
+	url := "http://" + hostport
+	mux.HandleFunc("/.well-known/openid-configuration", func(w http.ResponseWriter, _ *http.Request) {
+		_ = json.NewEncoder(w).Encode(map[string]any{"issuer": url, "authorization_endpoint": url + "/auth",
+			"token_endpoint": url + "/token", "jwks_uri": url + "/jwks", "id_token_signing_alg_values_supported": []string{"RS256"}})
+	})
+	mux.HandleFunc("/jwks", func(w http.ResponseWriter, _ *http.Request) {
+		_ = json.NewEncoder(w).Encode(map[string]any{"keys": []map[string]any{{"kty": "RSA", "kid": "k1", "alg": "RS256", "use": "sig",
+			"n": b64(key.N.Bytes()), "e": b64(big.NewInt(int64(key.E)).Bytes())}}})
+	})
+	mux.HandleFunc("/token", func(w http.ResponseWriter, r *http.Request) {
+		_ = r.ParseForm()
+		id, _, ok := r.BasicAuth()
+		if !ok {
+			id = r.PostForm.Get("client_id")
+		}
+		if id == "" {
+			http.Error(w, "no client id", http.StatusUnauthorized)
+			return
+		}
+		now := time.Now()
+		header, _ := json.Marshal(map[string]any{"alg": "RS256", "kid": "k1", "typ": "JWT"})
+		claims, _ := json.Marshal(map[string]any{"iss": url, "sub": id, "aud": "frps", "iat": now.Unix(), "exp": now.Add(time.Hour).Unix()})
+		in := b64(header) + "." + b64(claims)
+		sum := sha256.Sum256([]byte(in))
+		sig, err := rsa.SignPKCS1v15(crand.Reader, key, crypto.SHA256, sum[:])
+		if err != nil {
+			http.Error(w, err.Error(), http.StatusInternalServerError)
+			return
+		}
+		w.Header().Set("Content-Type", "application/json")
+		_ = json.NewEncoder(w).Encode(map[string]any{"access_token": in + "." + b64(sig), "token_type": "Bearer", "expires_in": 3600})
+	})
+	return url, stop, nil
+}
+
+// ---- scenario: auth.method = oidc with the HeartBeats scope and TWO clients with different identities, both
+//      pinging validly every second: neither session may be torn down (sessions are counted by a Login plugin) ----
+func scenOidcTwoIdentities(addr string, T int64, window int64) scenResult {
+	res := scenResult{name: "oidc_two_identities", info: map[string]any{}}
+	issuer, stopIssuer, err := startIssuer(addr)
+	if err != nil {
+		res.problems = append(res.problems, "issuer: "+err.Error())
+		return res
+	}
+	defer stopIssuer()
+	var mu sync.Mutex
+	logins := map[string]int{}
+	pluginAddr, stopPlugin, err := serveHTTP(addr, http.HandlerFunc(func(w http.ResponseWriter, r *http.Request) {
+		var body struct {
+			Content struct {
+				User string `json:"user"`
+			} `json:"content"`
+		}
+		_ = json.NewDecoder(r.Body).Decode(&body)
+		mu.Lock()
+		logins[body.Content.User]++
+		mu.Unlock()
+		w.Header().Set("Content-Type", "application/json")
+		_, _ = w.Write([]byte(`{"reject":false,"unchange":true}`))
+	}))
+	if err != nil {
+		res.problems = append(res.problems, err.Error())
+		return res
+	}
+	defer stopPlugin()
+	s, err := hx.StartServer(addr, func(c *v1.ServerConfig) {
+		c.Auth.Method = v1.AuthMethodOIDC
+		c.Auth.Token = ""
+		c.Auth.AdditionalScopes = []v1.AuthScope{v1.AuthScopeHeartBeats}
+		c.Auth.OIDC.Issuer = issuer
+		c.Transport.HeartbeatTimeout = T
+		c.HTTPPlugins = []v1.HTTPPluginOptions{{Name: "count-logins", Addr: pluginAddr, Path: "/handler", Ops: []string{"Login"}}}
+	})
+	if err != nil {
+		res.problems = append(res.problems, "server start: "+err.Error())
+		return res
+	}
+	defer s.Close()
+	echo, err := hx.StartEcho(addr, "")
+	if err != nil {
+		res.problems = append(res.problems, err.Error())
+		return res
+	}
+	defer echo.Close()
+	users := []string{"alice", "bob"}
+	rports := []int{hx.FreePort(addr), hx.FreePort(addr)}
+	clients := []*hx.Client{}
+	for i, u := range users {
+		u := u
+		cl, err := s.StartClient([]v1.ProxyConfigurer{tcpProxy("echo", addr, echo.Port(), rports[i])}, nil, func(cc *v1.ClientCommonConfig) {
+			cc.User = u
+			cc.Auth.Method = v1.AuthMethodOIDC
+			cc.Auth.Token = ""
+			cc.Auth.AdditionalScopes = []v1.AuthScope{v1.AuthScopeHeartBeats}
+			cc.Auth.OIDC.ClientID = u
+			cc.Auth.OIDC.ClientSecret = "secret-of-" + u
+			cc.Auth.OIDC.TokenEndpointURL = issuer + "/token"
+			cc.Transport.HeartbeatInterval = 1
+			cc.Transport.HeartbeatTimeout = T
+			cc.LoginFailExit = nil
+		})
+		if err != nil {
+			res.problems = append(res.problems, err.Error())
+			return res
+		}
+		defer cl.Close()
+		clients = append(clients, cl)
+		time.Sleep(400 * time.Millisecond)
+	}
+	time.Sleep(time.Duration(window) * time.Millisecond)
+	mu.Lock()
+	counts := []int64{int64(logins[users[0]]), int64(logins[users[1]])}
+	mu.Unlock()
+	unusable := int64(0)
+	for i, u := range users {
+		if !(clients[i].WaitProxyRunning(u+".echo", 500*time.Millisecond) && echoThrough(addr, rports[i])) {
+			unusable++
+		}
+	}
+	res.ok = counts[0] == 1 && counts[1] == 1 && unusable == 0
+	if !res.ok {
+		res.problems = append(res.problems, fmt.Sprintf("two live clients with different OIDC identities (valid heartbeat every second, timeout %d s) over %d ms: sessions alice=%d bob=%d (1 each expected), tunnels unusable at the end: %d", T, window, counts[0], counts[1], unusable))
+	}
+	res.info["sessions_alice"], res.info["sessions_bob"], res.info["unusable"] = counts[0], counts[1], unusable
+	res.cases = append(res.cases, fmt.Sprintf("CNoFlap %d 1000 %d %s %d", T, window, zlist(counts), unusable))
+	return res
+}
+
 func echoThrough(addr string, port int) bool {
 	c, err := net.DialTimeout("tcp", net.JoinHostPort(addr, fmt.Sprint(port)), time.Second)
 	if err != nil {
@@ -1194,6 +1460,10 @@ func runLiveness(cfg *runCfg) error {
 		func() scenResult {
 			return scenSilentClient("silent_client_quic", "127.0.14.11", 2, []int64{400}, 0, false, false, true)
 		},
+		// session dies while a NewProxy sits in a slow plugin; then the client comes back
+		func() scenResult { return scenInflightTeardown("127.0.14.12", 2, 1000, 2500) },
+		// oidc + HeartBeats scope, two identities, nobody flaps
+		func() scenResult { return scenOidcTwoIdentities("127.0.14.13", 2, 6000) },
 		// healthy control connection, new connections to the server black-holed, three ReqWorkConn
 		func() scenResult { return scenBlockedDials("127.0.14.10", 1, 3, 2, 3, 9000) })
 
